@@ -39,7 +39,11 @@ type anchor struct {
 
 // c20Spelt returns the source of the template under test with token positions.
 func c20Spelt(cs *c20Case) (string, []m.Tok, []m.Pos) {
-	tp := cs.C14.P.Tpl(cs.Tpl)
+	prog := cs.C14.Q
+	if prog == nil {
+		prog = cs.C14.P
+	}
+	tp := prog.Tpl(cs.Tpl)
 	toks := m.Tokens(tp.Body)
 	ws := cs.C14.Ws[cs.Tpl]
 	src, pos := m.Join(toks, func(i int, can string, must bool) string {
@@ -345,7 +349,7 @@ func init() {
 		sub.Rapid(c, c.Share(c.Pick(1500, 100000)), func(t *rapid.T) *c20Case {
 			s, tpl := genSpelt(t)
 			s.P.Loader = rapid.SampledFrom([]string{"memory", "fs"}).Draw(t, "loader")
-			toks := m.Tokens(s.P.Tpl(tpl).Body)
+			toks := m.Tokens(s.Q.Tpl(tpl).Body)
 			var ins []int
 			for i, tk := range toks {
 				if tk.In {
